@@ -6,13 +6,14 @@ set -u
 cd "$(dirname "$0")/.."
 export GOFLAGS=-mod=mod GOPROXY=off
 tier="${1:-quick}"
+REPO="${VERIF_REPO:-/repo}"; export VERIF_EVIDENCE_DIR="${VERIF_EVIDENCE_DIR:-evidence}" VERIF_REPLAY_DIR="${VERIF_REPLAY_DIR:-replay}"
 ops=3; [ "$tier" = thorough ] && ops=5
 tmp="$(mktemp -d)"; trap 'rm -rf "$tmp"' EXIT
 cat > "$tmp/ov.json" <<EOT
-{"Replace": {"/repo/internal/schema/zz_verif_c10_test.go": "$PWD/extra/c10_standin_test.go"}}
+{"Replace": {"$REPO/internal/schema/zz_verif_c10_test.go": "$PWD/extra/c10_standin_test.go"}}
 EOT
 t0=$(date +%s.%N)
-out=$(cd /repo && VERIF_C10_OPS=$ops go test -v -overlay "$tmp/ov.json" -vet=off -count=1 -timeout 900s -run '^TestVerifC10BoundedStandIn$' ./internal/schema/ 2>&1)
+out=$(cd "$REPO" && VERIF_C10_OPS=$ops go test -v -overlay "$tmp/ov.json" -vet=off -count=1 -timeout 900s -run '^TestVerifC10BoundedStandIn$' ./internal/schema/ 2>&1)
 res=$(echo "$out" | grep '^C10-RESULT ' | sed 's/^C10-RESULT //')
 if [ -z "$res" ]; then echo "TOOL-ERROR C10 stand-in did not run:"; echo "$out" | tail -5; exit 2; fi
 t1=$(date +%s.%N)
@@ -26,16 +27,17 @@ for l in open('KNOWN_FINDINGS'):
         m=re.search(r'obligation=(\S+)',l)
         if m: known.append((m.group(1),l[len('finding:'):].strip()))
 viol=0; kf=[]
-os.makedirs('replay/C10',exist_ok=True)
+RP=os.environ['VERIF_REPLAY_DIR']; EV=os.environ['VERIF_EVIDENCE_DIR']
+os.makedirs(RP+'/C10',exist_ok=True)
 for f in (res['failures'] or []):
     ob='C10/bounded-standin.'+f['Class']
     hit=[k for k in known if k[0]==ob]
     if hit:
         print('KNOWN-FINDING: '+hit[0][1]); kf.append(ob); continue
-    path='replay/C10/'+re.sub(r'[^A-Za-z0-9_.-]','_',ob)+'.txt'
+    path=RP+'/C10/'+re.sub(r'[^A-Za-z0-9_.-]','_',ob)+'.txt'
     open(path,'w').write('property: C10\nobligation: %s (bounded stand-in, not a proof obligation)\nfailing input (OPL permission expression): %s\n%s\nreplay: /verif/extra/C10.sh quick 0\n'%(ob,f['Expr'],f['Detail']))
     print('VIOLATION property=C10 replay=%s obligation=%s input=%s'%(path,ob,f['Expr'])); viol+=1
-ev_path='evidence/C10.json'
+ev_path=EV+'/C10.json'
 ev={}
 if os.path.exists(ev_path):
     try: ev=json.load(open(ev_path))
